@@ -20,7 +20,8 @@ def corpus0(tier):
     q = tier == "quick"
     return (D.conv_family(SEED + 110, 20 if q else 120, max_named=3, maxlen=3, budget=2000, extras=("dd", "unk", "help", "ver")) +
             D.cmd_family(SEED + 111, 12 if q else 80, maxlen=3, budget=2000, extras=("help", "unk", "ver")) +
-            D.spell_family(SEED + 112, 8 if q else 40, maxlen=2, budget=3000))
+            D.spell_family(SEED + 112, 8 if q else 40, maxlen=2, budget=3000) +
+            D.subver_family(SEED + 113, 8 if q else 20, maxlen=3))
 
 
 def run(v):
